@@ -381,7 +381,7 @@ def netspec(draw, prof):
         if on["discipline"]:
             nd["discipline"] = draw(st.sampled_from(["FIFO", "LIFO", "SIRO"]))
         if on["server_priority"] and nd["servers"]["kind"] in ("int", "schedule") and not is_ps:
-            nd["server_priority"] = draw(st.sampled_from(["id_desc", "busy_time", "id_parity"]))
+            nd["server_priority"] = draw(st.sampled_from(["id_desc", "busy_time", "id_parity", "last_resort"]))
         nodes.append(nd)
 
     if any(nd.get("ps") for nd in nodes):
